@@ -517,6 +517,19 @@ def expect_from_model(mo):
     return {"an": [an(a) for a in mo["an"]], "ctrls": mo["ctrls"], "opts": mo["opts"]}
 
 
+def adopt_invented(spec_ans, exp_ans, got_ans):
+    """Walk the designer's analyses, the expected entries and the exported entries together; where the designer gave no name, the
+    exported name becomes the expected one. Returns the names taken over."""
+    out = []
+    for sa, ea, ga in zip(spec_ans, exp_ans, got_ans):
+        if not sa.get("name") and isinstance(ga, dict) and isinstance(ea, dict) and ga.get("name"):
+            ea["name"] = ga["name"]
+            out.append(ga["name"])
+        if isinstance(ea, dict) and isinstance(ga, dict):
+            out += adopt_invented(sa.get("inner", []), ea.get("inner", []), ga.get("inner", []))
+    return out
+
+
 def all_names(ans):
     out = []
     for a in ans:
@@ -584,6 +597,12 @@ def judge(case, im, mos):
             yield ("pred", {"why": "two analyses share a name although the designer's names are distinct", "names": names})
         # ---- (C) + numeric (P)
         exp = expect_from_model(mo["ok"])
+        # Which names unnamed analyses receive is the exporter's business ("unnamed analyses receive distinct names"): the names it
+        # chose are taken over into the expected entry once they are fresh — none of the designer's, no two alike (checked above and here).
+        spec_ans = [a["a"] for a in model_in if a["t"] == "an"]
+        invented = adopt_invented(spec_ans, exp["an"], got["an"])
+        if len(set(un)) == len(un) and (set(invented) & set(un) or len(set(invented)) != len(invented)):
+            yield ("pred", {"why": "a name invented for an unnamed analysis is a designer's name or is invented twice", "invented": invented, "designer": un})
         d = first_diff(exp, {"an": got["an"], "ctrls": got["ctrls"], "opts": got["opts"]})
         if d:
             kind = "pred" if any(t in d for t in ("start", "stop", "step", "tstop", "tstep", "pts", "npts")) else "corr"
